@@ -374,11 +374,11 @@ impl Format {
 
         if let Some(weekday) = weekday {
             // Check that the weekday is correct
-            if weekday != epoch.weekday() {
+            if weekday != epoch.gregorian_weekday() {
                 return Err(HifitimeError::Parse {
                     source: ParsingError::WeekdayMismatch {
                         found: weekday,
-                        expected: epoch.weekday(),
+                        expected: epoch.gregorian_weekday(),
                     },
                     details: "weekday and day number do not match",
                 });
